@@ -161,12 +161,14 @@ def parse_tlc(out):
         if m:
             a = res.coverage.get(m.group(1), (0, 0))
             res.coverage[m.group(1)] = (a[0] + int(m.group(3)), a[1] + int(m.group(2)))
-    if "Model checking completed. No error has been found." in out or "Finished in" in out and "Error:" not in out:
+    # TLC's own error lines start with "Error:"; the same text inside a report line (e.g. a panic message of the code
+    # under test quoted in a @@VIOL detail) is data
+    m = re.search(r"^Error:", out, flags=re.M)
+    if "Model checking completed. No error has been found." in out or "Finished in" in out and not m:
         res.ok = True
-    if "Error:" in out:
+    if m:
         res.ok = False
-        i = out.index("Error:")
-        res.error = out[i:i + 3000]
+        res.error = out[m.start():m.start() + 3000]
     return res
 
 
